@@ -30,6 +30,7 @@ CONSTANTS Thorough = %(thorough)s
  SE = %(SE)d
  S2 = %(S2)d
  SQ = %(SQ)d
+ SP = %(SP)d
  Off = %(Off)d
  FS = %(FS)d
 """
@@ -309,6 +310,7 @@ def enumerate_cases(ctx, knobs, label, invariants=True):
     d = ctx.sub("enum-" + label)
     out = os.path.join(d, "groups.ndjson")
     desc = os.path.join(d, "world.json")
+    knobs = dict({"SP": 40}, **knobs)  # replay files written before the pinned-key family have no SP
     cfg = ENUM_CFG % dict(knobs, inv="\n".join("INVARIANT " + i for i in INVARIANTS) if invariants else "")
     res = tlc.run_tlc("SubstEnum", cfg, d, env={"OUT": out, "DESC": desc}, timeout=3000)
     if res.error:
@@ -346,17 +348,17 @@ def enumerate_cases(ctx, knobs, label, invariants=True):
 REQUIRED = [
     (v, k)
     for v in ("accept", "reject")
-    for k in ("key-has-bound-var", "nested-keys", "key-in-value", "compound-key", "leaf-key", "no-occurrence")
-] + [("either", "leaf-key"), ("either", "compound-key")]
+    for k in ("identity-pair", "key-has-bound-var", "nested-keys", "key-in-value", "compound-key", "leaf-key", "no-occurrence")
+] + [("either", "leaf-key"), ("either", "compound-key"), ("either", "identity-pair")]
 
 
 def run(ctx):
     q = ctx.quick
     off = ctx.rng.randrange(0, 997)
     if q:
-        knobs = dict(thorough="FALSE", SS=1, SD=10, S1=6, SE=10, S2=14, SQ=8, Off=off, FS=1)
+        knobs = dict(thorough="FALSE", SS=1, SD=10, S1=6, SE=10, S2=14, SQ=8, SP=100, Off=off, FS=1)
     else:
-        knobs = dict(thorough="TRUE", SS=3, SD=8, S1=6, SE=10, S2=20, SQ=5, Off=off, FS=3)
+        knobs = dict(thorough="TRUE", SS=3, SD=8, S1=6, SE=10, S2=20, SQ=5, SP=25, Off=off, FS=3)
     desc, groups, feats, ncases = enumerate_cases(ctx, knobs, "main")
     for cls in REQUIRED:
         if feats.get(cls, 0) == 0:
@@ -419,7 +421,7 @@ def replay(ctx, data):
 
 def selftest(ctx):
     """The judge must reject every corrupted observation (and accept the uncorrupted ones)."""
-    knobs = dict(thorough="FALSE", SS=4, SD=100000, S1=1000, SE=1000, S2=1000, SQ=1000, Off=0, FS=1)
+    knobs = dict(thorough="FALSE", SS=4, SD=100000, S1=1000, SE=1000, S2=1000, SQ=1000, SP=1000, Off=0, FS=1)
     desc, groups, feats, ncases = enumerate_cases(ctx, knobs, "selftest", invariants=False)
     tab, obs, cases = replay_all(ctx, desc, groups)
     guard = corrupt(obs, tab)
